@@ -48,13 +48,26 @@ def run(chk):
                 "strongly preferred sensor - also a zero-residual one); metamorphic pairs (costs shifted by a constant, zero costs vs QR); "
                 "distinct by canonical JSON; non-trivial = costs change the unconstrained ranking")
     exprs, meta = [], []
-    for it in range(N):
-        n, m = gen.shape(rng, nmax, mmax)
-        B, kind = gen.matrix(rng, n, m)
+    corpus = [(np.array([[2, -1, 0, 3], [4, 1, -2, 0], [0, 0, 0, 0], [1, 3, 2, -1], [-2, 2, 1, 1], [3, 0, -1, 2], [1, -1, 4, 0]], dtype=float),
+               np.array([0, 0, -100.0, 0, 0, 0, 0]))]
+    for it in range(N + len(corpus)):
+        if it < len(corpus):       # minimised failures run first (here: the recorded known finding)
+            B, costs = corpus[it]
+            n, m = B.shape
+            kind, ck = "zerorows", "zero_row_preferred"
+        else:
+            n, m = gen.shape(rng, nmax, mmax)
+            B, kind = gen.matrix(rng, n, m)
+            costs, ck = gen.costs(rng, n)
         k = min(n, m)
         Bq = fr_mat(B)
-        costs, ck = gen.costs(rng, n)
-        if kind == "zerorows" and rng.random() < 0.6:
+        if it >= len(corpus) and rng.random() < 0.15:
+            # the same problem in tiny units (exact power-of-two rescaling of matrix and costs)
+            B = B * 2.0 ** -36
+            costs = costs * 2.0 ** -36
+            kind = kind + "*2^-36"
+            Bq = fr_mat(B)
+        if it >= len(corpus) and kind == "zerorows" and rng.random() < 0.6:
             z = [i for i in range(n) if not np.any(B[i])]
             if z:
                 costs = costs.copy()
@@ -63,7 +76,14 @@ def run(chk):
         cq = [F(float(c)) for c in costs]
         case = {"B": B.tolist(), "kind": kind, "costs": costs.tolist(), "cost_kind": ck}
         try:
-            piv = [int(i) for i in impl.quiet(CCQR(sensor_costs=costs.copy()).fit, B.copy()).get_sensors()]
+            user_costs = costs.copy()
+            opt = CCQR(sensor_costs=user_costs)
+            piv = [int(i) for i in impl.quiet(opt.fit, B.copy()).get_sensors()]
+            # the same optimizer object (and the user's cost array) used again must give the same ranking
+            piv_again = [int(i) for i in impl.quiet(opt.fit, B.copy()).get_sensors()]
+            if piv_again != piv or not np.array_equal(user_costs, costs):
+                chk.violation("impl", "ccqr-second-fit-differs", f"fitting the same CCQR object twice on the same matrix gives {piv} then {piv_again}; "
+                              f"cost array modified: {not np.array_equal(user_costs, costs)}", {**case, "observed": [piv, piv_again]})
             qrp = [int(i) for i in QR().fit(B).get_sensors()]
         except Exception as e:
             chk.violation("impl", "ccqr-raises", f"CCQR.fit raised {type(e).__name__}: {e}", case)
